@@ -1339,6 +1339,10 @@ class Interp:
             if spec:
                 raise Unsupported("format spec on string")
             return val
+        if isinstance(val, NativeAbs):
+            if spec:
+                raise Unsupported("format spec on abstract value")
+            return self.str_(val)
         if isinstance(val, (Obj, ExcVal, list, tuple, dict, ClassInfo)) and not is_concrete(val):
             if spec:
                 raise Unsupported("format spec on object")
@@ -1351,6 +1355,8 @@ class Interp:
     def str_(self, v):
         if isinstance(v, (str, Tpl, Atom)):
             return v
+        if isinstance(v, NativeAbs) and hasattr(v, "to_str"):
+            return v.to_str(self)
         if isinstance(v, Obj):
             if "__str__" in v.stubs:
                 return v.stubs["__str__"](self, v, [], {})
@@ -1580,6 +1586,8 @@ def _b_str(it, args, kw):
 
 
 def _b_int(it, args, kw):
+    if args and isinstance(args[0], NativeAbs) and hasattr(args[0], "as_int"):
+        return args[0].as_int(it, *args[1:])
     if len(args) == 1 and isinstance(args[0], (SInt, SBool)):
         return SInt(to_z3_int(args[0]))
     if any(isinstance(a, (Tpl, Atom)) for a in args):
